@@ -375,6 +375,16 @@ func (f *Frame) loopHeader(b *ssa.BasicBlock, preds []*ssa.BasicBlock, conds []s
 func (f *Frame) addIter(phi *ssa.Phi, v string, m map[string]CVal) {
 	if phi.Comment == "rangeindex" {
 		m["iter"] = CVal{S: f.e.idxAdd(v, f.e.idxLit("1")), T: phi.Type()}
+		// ranged: the slice / array / string the loop ranges over (it may have no name in the source)
+		if n := rangeLimit(phi.Block(), phi); n != nil {
+			if c, ok := n.(*ssa.Call); ok {
+				if b, ok := c.Call.Value.(*ssa.Builtin); ok && b.Name() == "len" && len(c.Call.Args) == 1 {
+					if _, known := f.vals[c.Call.Args[0]]; known {
+						m["ranged"] = CVal{S: f.val(c.Call.Args[0]), T: c.Call.Args[0].Type()}
+					}
+				}
+			}
+		}
 	}
 }
 
@@ -542,6 +552,18 @@ func (f *Frame) resolveLocal(name string, h *ssa.BasicBlock, st *State) (CVal, b
 		if d > bestDepth {
 			best, bestAddr, bestDepth = v, isAddr, d
 		}
+	}
+	// a variable that lives in memory (captured by a closure, address taken): its Alloc carries the name
+	for _, b := range f.fn.Blocks {
+		for i, in := range b.Instrs {
+			if a, ok := in.(*ssa.Alloc); ok && a.Comment == name {
+				consider(a, true, i)
+			}
+		}
+	}
+	if best != nil {
+		p := f.placeOf(best)
+		return CVal{S: f.e.load(st, p), T: p.finalType(), Place: p}, true
 	}
 	for _, b := range f.fn.Blocks {
 		for i, in := range b.Instrs {
